@@ -392,7 +392,8 @@ prop("C04", modules=["SasLexer.Properties.C04"],
                "SasLexer.C04_model", "SasLexer.C04_model_of_mono", "SasLexer.model_lines_exact", "SasLexer.awp_sound", "SasLexer.step_DInv",
                "SasLexer.mainLoop_awp", "SasLexer.lexToken_awp", "SasLexer.finalizeLoop_inert"],
      variants=["dev", "rel", "rel-sep"], proj=proj_lines)
-prop("C05", modules=["SasLexer.Properties.C05"], theorems=["SasLexer.C05_pure", "SasLexer.C05_wf_needed", "SasLexer.DBuf.resolved_eq_accessors"],
+prop("C05", modules=["SasLexer.Properties.C05"], theorems=["SasLexer.C05_pure", "SasLexer.C05_wf_needed", "SasLexer.DBuf.resolved_eq_accessors",
+                                                            "SasLexer.C05_model", "SasLexer.C05_model_of_mono", "SasLexer.model_lineWF"],
      variants=["dev", "rel", "rel-sep"], proj=proj_views)
 prop("C09", modules=["SasLexer.Properties.C09"], theorems=["SasLexer.kernel_C09_offsets", "SasLexer.kernel_C09_last_token_exists", "SasLexer.run_KErr"],
      variants=["dev", "rel", "rel-sep"], proj=proj_errors)
